@@ -551,7 +551,7 @@ def split_ret(sig):
 
 
 def extract_fn(repo, rel, qualname, contract_lines, loops, ats, rewrites, stub=False, ret_name='r',
-               impl_header=None, info=None, props=None, emit_as=None, attrs=()):
+               impl_header=None, info=None, props=None, emit_as=None, attrs=(), desugar=False):
     raw, src = repo.src(rel)
     if '::' in qualname and impl_header is None:
         impl_header, name = qualname.rsplit('::', 1)
@@ -569,6 +569,9 @@ def extract_fn(repo, rel, qualname, contract_lines, loops, ats, rewrites, stub=F
         cnt[0] += 1
         return '%s_arg%d:' % (mm.group(1), cnt[0])
     head = re.sub(r'([(,]\s*)_\s*:', _ren, head)
+    n_fnptr = 0
+    if desugar:
+        head, n_fnptr = fnptr_params_to_impl_fn(head)
     body = src[o:e + 1]
     rec = {'kind': 'fn', 'name': qualname, 'file': rel, 'lines': [line_of(src, m.start()), line_of(src, e)],
            'sha256': hashlib.sha256(src[m.start():e + 1].encode()).hexdigest(), 'props': props or [],
@@ -595,7 +598,7 @@ def extract_fn(repo, rel, qualname, contract_lines, loops, ats, rewrites, stub=F
         out.append(cl)
     if stub:
         out.append('{ unimplemented!() }')
-        rec['rules'] = {'R5_stub': True}
+        rec['rules'] = {'R5_stub': True, 'R11_fnptr_params_as_impl_fn': n_fnptr}
         if info is not None:
             info.append(rec)
         return '\n'.join(out) + '\n'
@@ -603,6 +606,9 @@ def extract_fn(repo, rel, qualname, contract_lines, loops, ats, rewrites, stub=F
     body, nlog = strip_logs(body)
     body, nfmt = replace_format(body)
     body = strip_attrs(body)
+    desugared = []
+    if desugar:
+        body, desugared = desugar_iter(body, qualname)
     applied = []
     for (a, b) in rewrites:
         if body.count(a) < 1:
@@ -621,7 +627,9 @@ def extract_fn(repo, rel, qualname, contract_lines, loops, ats, rewrites, stub=F
         kw, ki, oi = lps[idx]
         spec = loops[idx]
         clauses = '\n' + '\n'.join(spec['lines']) + '\n'
-        if kw == 'for' and spec.get('iter'):
+        if kw == 'for' and spec.get('manual'):
+            body = manual_loop(body, ki, oi, spec['manual'], clauses, qualname)
+        elif kw == 'for' and spec.get('iter'):
             hdr = body[ki:oi]
             fm = re.match(r'for\s+(.*?)\s+in\s+(.*)$', hdr, re.S)
             if not fm:
@@ -666,9 +674,214 @@ def extract_fn(repo, rel, qualname, contract_lines, loops, ats, rewrites, stub=F
     body = '{ /*@body*/' + body[1:]
     out.append(body)
     rec['rules'] = {'R1_log_statements_dropped': nlog, 'R2_format_replaced': nfmt, 'rewrites': applied}
+    if desugar:
+        rec['rules']['desugared'] = desugared
+        rec['rules']['R11_fnptr_params_as_impl_fn'] = n_fnptr
     if info is not None:
         info.append(rec)
     return '\n'.join(out) + '\n'
+
+
+# ----------------------------------------------------------------------------- iterator-chain desugaring (R11-R13)
+#
+# Verus has no specification for `Iterator::for_each`, `Iterator::fold`, `Iterator::copied` or closure patterns such as
+# `|(_, id)|`.  For functions that opt in (`desugar` flag on //@fn) the extractor replaces those adapter calls by the loop the
+# standard library documents them to be.  The rules are syntactic, applied on every run, and each application is reported in
+# the evidence (`rules.desugared`).  Anything that does not match a rule exactly is an ExtractError (tool error), never a pass.
+#
+#   D1  `E.for_each(|PAT| BLOCK);`                         =>  `for PAT in E BLOCK`
+#        (std: "for_each ... is equivalent to using a for loop on the iterator"; BLOCK must not contain return/?/break/continue)
+#   D2  `E.fold(INIT, |ACC, X| BLOCK)`                     =>  `{ let mut ACC = INIT; for X in E { ACC = BLOCK; } ACC }`
+#        (std: "let mut accum = init; for x in self { accum = f(accum, x); } accum")
+#   D3  `let N : Vec<T> = E.copied().collect();`           =>  `let mut N : Vec<T> = Vec::new(); for verif_x in E { N.push(*verif_x); }`
+#   D4  `let N : Vec<T> = E.filter(|P| BLOCK).copied().collect();`
+#                                                          =>  `let mut N : Vec<T> = Vec::new(); for verif_x in E { let P = &verif_x; if BLOCK { N.push(*verif_x); } }`
+#        (Vec's FromIterator pushes the items in iteration order; `copied` dereferences each `&T`; `filter` passes `&Item`)
+#   R11 a parameter of fn-pointer type `fn() -> X` is emitted as `impl Fn() -> X` (Verus has no fn-pointer types; a fn item passed
+#        at a call site is then passed as itself instead of being coerced to a pointer)
+
+CONTROL = re.compile(r'\b(return|break|continue)\b|\?')
+
+
+def _stmt_start(body, i):
+    """index of the first non-blank char of the statement containing position i (scan back to ; { } at depth 0)."""
+    d = 0
+    j = i - 1
+    while j >= 0:
+        c = body[j]
+        if c in ')]}':
+            if c == '}' and d == 0:
+                break
+            d += 1
+        elif c in '([{':
+            if d == 0:
+                break
+            d -= 1
+        elif c == ';' and d == 0:
+            break
+        j -= 1
+    j += 1
+    while j < i and body[j] in ' \t\n':
+        j += 1
+    return j
+
+
+def _parse_closure(text, qualname):
+    """text = `|PARAMS| BODY` (BODY a block or an expression); returns (params list, body text)."""
+    t = text.strip()
+    if not t.startswith('|'):
+        raise ExtractError("desugar: expected a closure in %s: %r" % (qualname, t[:60]))
+    # parameters end at the next `|` at paren depth 0
+    d = 0
+    k = 1
+    while k < len(t):
+        c = t[k]
+        if c in '([<':
+            d += 1
+        elif c in ')]>':
+            d -= 1
+        elif c == '|' and d == 0:
+            break
+        k += 1
+    params = [x.strip() for x in split_fields(t[1:k])]
+    return params, t[k + 1:].strip()
+
+
+def _split_args(text):
+    """split call arguments at depth-0 commas (closures' `|a, b|` parameter lists are kept together)."""
+    parts = []
+    d = 0
+    cur = []
+    in_bar = False
+    for idx, ch in enumerate(text):
+        if ch == '|' and d == 0:
+            in_bar = not in_bar if (in_bar or not ''.join(cur).strip()) else in_bar
+        if ch in '([{':
+            d += 1
+        elif ch in ')]}':
+            d -= 1
+        if ch == ',' and d == 0 and not in_bar:
+            parts.append(''.join(cur))
+            cur = []
+        else:
+            cur.append(ch)
+    if ''.join(cur).strip():
+        parts.append(''.join(cur))
+    return [x.strip() for x in parts]
+
+
+def _as_block(b):
+    b = b.strip()
+    return b if b.startswith('{') else '{ ' + b + ' }'
+
+
+def desugar_iter(body, qualname):
+    applied = []
+    # ---- D3 / D4 : let N : Vec<T> = E[.filter(|P| B)].copied().collect();
+    pat = re.compile(r'let\s+([A-Za-z_][A-Za-z0-9_]*)\s*:\s*(Vec<[^>]*>)\s*=\s*')
+    pos = 0
+    while True:
+        m = pat.search(body, pos)
+        if not m:
+            break
+        semi = m.end()
+        d = 0
+        while semi < len(body):
+            c = body[semi]
+            if c == '"':
+                semi = skip_string(body, semi)
+                continue
+            if c in '([{':
+                d += 1
+            elif c in ')]}':
+                d -= 1
+            elif c == ';' and d == 0:
+                break
+            semi += 1
+        rhs = body[m.end():semi]
+        rhs_n = re.sub(r'\s+', ' ', rhs).strip()
+        if not rhs_n.endswith('.copied().collect()'):
+            pos = m.end()
+            continue
+        src_e = rhs_n[:-len('.copied().collect()')]
+        name, ty = m.group(1), m.group(2)
+        fi = src_e.rfind('.filter(')
+        if fi >= 0 and src_e.endswith(')'):
+            recv = src_e[:fi]
+            clos = src_e[fi + len('.filter('):-1]
+            params, cb = _parse_closure(clos, qualname)
+            if len(params) != 1 or CONTROL.search(cb):
+                raise ExtractError("desugar D4 does not apply in %s" % qualname)
+            rep = ('let mut %s : %s = Vec::new();\n        for verif_x in %s {\n            let %s = &verif_x;\n            if %s {\n                %s.push(*verif_x);\n            }\n        }'
+                   % (name, ty, recv, params[0], cb, name))
+            applied.append({'rule': 'D4 filter+copied+collect -> push loop', 'binding': name})
+        else:
+            if '|' in src_e:
+                raise ExtractError("desugar D3 does not apply in %s: %r" % (qualname, src_e))
+            rep = 'let mut %s : %s = Vec::new();\n        for verif_x in %s {\n            %s.push(*verif_x);\n        }' % (name, ty, src_e, name)
+            applied.append({'rule': 'D3 copied+collect -> push loop', 'binding': name})
+        body = body[:m.start()] + rep + body[semi + 1:]
+        pos = m.start() + len(rep)
+    # ---- D1 : E.for_each(|PAT| BLOCK);
+    while True:
+        i = body.find('.for_each(')
+        if i < 0:
+            break
+        o = i + len('.for_each(') - 1
+        c = match_close(body, o, '(', ')')
+        params, cb = _parse_closure(body[o + 1:c], qualname)
+        if len(params) != 1 or CONTROL.search(cb):
+            raise ExtractError("desugar D1 does not apply in %s (closure with control flow or several parameters)" % qualname)
+        st = _stmt_start(body, i)
+        recv = re.sub(r'\s+', ' ', body[st:i]).strip()
+        k = c + 1
+        while k < len(body) and body[k] in ' \t':
+            k += 1
+        if k >= len(body) or body[k] != ';':
+            raise ExtractError("desugar D1: for_each used as an expression in %s" % qualname)
+        rep = 'for %s in %s %s' % (params[0], recv, _as_block(cb))
+        body = body[:st] + rep + body[k + 1:]
+        applied.append({'rule': 'D1 for_each -> for', 'receiver': recv})
+    # ---- D2 : E.fold(INIT, |ACC, X| BLOCK)
+    while True:
+        i = body.find('.fold(')
+        if i < 0:
+            break
+        o = i + len('.fold(') - 1
+        c = match_close(body, o, '(', ')')
+        args = _split_args(body[o + 1:c])
+        if len(args) != 2:
+            raise ExtractError("desugar D2: fold with %d arguments in %s" % (len(args), qualname))
+        params, cb = _parse_closure(args[1], qualname)
+        if len(params) != 2 or CONTROL.search(cb):
+            raise ExtractError("desugar D2 does not apply in %s" % qualname)
+        st = _stmt_start(body, i)
+        recv = re.sub(r'\s+', ' ', body[st:i]).strip()
+        rep = '{\n        let mut %s = %s;\n        for %s in %s {\n            %s = %s;\n        }\n        %s\n        }' % (
+            params[0], args[0], params[1], recv, params[0], cb, params[0])
+        body = body[:st] + rep + body[c + 1:]
+        applied.append({'rule': 'D2 fold -> accumulator loop', 'receiver': recv})
+    return body, applied
+
+
+def fnptr_params_to_impl_fn(head):
+    """R11: `name: fn(A) -> R` parameters become `name: impl Fn(A) -> R`."""
+    new, n = re.subn(r'(:\s*)fn\s*\(', r'\1impl Fn(', head)
+    return new, n
+
+
+def manual_loop(body, ki, oi, itname, clauses, qualname):
+    """`for PAT in E BLOCK` -> `{ let mut it = (E).into_iter(); loop <clauses> { match it.next() { Some(PAT) => BLOCK, None => { break; } } } }`
+    (the desugaring of `for` in the Rust reference), so that invariants can name the iterator."""
+    hdr = body[ki:oi]
+    fm = re.match(r'for\s+(.*?)\s+in\s+(.*)$', hdr, re.S)
+    if not fm:
+        raise ExtractError("cannot parse for header in %s: %r" % (qualname, hdr))
+    ce = match_close(body, oi, '{', '}')
+    blk = body[oi:ce + 1]
+    rep = ('{ let mut %s = (%s).into_iter();\n        loop%s        {\n            match %s.next() {\n                Some(%s) => %s,\n                None => { break; }\n            }\n        } }'
+           % (itname, fm.group(2).strip(), clauses, itname, fm.group(1).strip(), blk))
+    return body[:ki] + rep + body[ce + 1:]
 
 
 # ----------------------------------------------------------------------------- template processing
@@ -790,7 +1003,7 @@ def process_template(template_path, repo_root, include_dirs=(), restrict=()):
                 if t.startswith('//@@loop'):
                     tk2 = t.split()
                     kv2, _ = parse_kv(tk2[2:])
-                    spec = {'lines': [], 'iter': kv2.get('iter')}
+                    spec = {'lines': [], 'iter': kv2.get('iter'), 'manual': kv2.get('manual')}
                     loops[int(tk2[1])] = spec
                     cur = spec['lines']
                 elif t.startswith('//@@at') and not t.startswith('//@@attr'):
@@ -828,7 +1041,8 @@ def process_template(template_path, repo_root, include_dirs=(), restrict=()):
             start = len(out_lines) + 1
             emit(extract_fn(repo, rel, qual, contract, loops, ats, rewrites, stub=('stub' in flags),
                             ret_name=kv.get('ret', 'r'), impl_header=impl_header, info=items,
-                            props=kv.get('props', '').split(',') if kv.get('props') else [], emit_as=kv.get('as'), attrs=fn_attrs))
+                            props=kv.get('props', '').split(',') if kv.get('props') else [], emit_as=kv.get('as'), attrs=fn_attrs,
+                            desugar=('desugar' in flags)))
             if kv.get('as'):
                 qual = (impl_header.split(' for ')[-1] + '::' if impl_header and ' for ' in impl_header else '') + kv['as']
                 items[-1]['name'] = qual
